@@ -56,7 +56,7 @@ def sparse_case(rng):
     """Indexes of 2^28..2^31 rows given by a handful of explicit cells (no dense twin is ever built).
     With three or more sub-cubes and rows x sub-cubes >= 2^30 the cube engages its worker pool on its
     own, so this is also the only place where the un-forced pooled path of the index cube runs."""
-    n = int(gen.pick(rng, [2 ** 28 + 1, 2 ** 29, 2 ** 29 + 3, 2 ** 30, 2 ** 31 + 5]))
+    n = int(gen.pick(rng, [2 ** 28 + 1, 2 ** 29, 2 ** 29 + 3, 2 ** 30, 2 ** 31 + 5, 2 ** 32 - 3, 2 ** 32]))
     ndims = int(rng.integers(1, 4))
     dims = []
     for d in range(ndims):
